@@ -79,7 +79,35 @@ def nest_deep(rng, spec, depth):
     return pairs
 
 
-def compare_pair(ctx, A, B, info, depth_label):
+def _none_variants(ctx, A, B):
+    """The same pair with (a) one top-level binding turned into None and/or (b) one single-output function node that
+    stays OUTSIDE every nested graph and feeds something returning the value None - applied to both builds alike."""
+    rng = ctx.rng
+    A, B = copy.deepcopy(A), copy.deepcopy(B)
+    changed = False
+    common = sorted(set(A.get("bind") or {}) & set(B.get("bind") or {}))
+    if common and rng.random() < 0.5:
+        k_ = rng.choice(common)
+        A["bind"][k_] = B["bind"][k_] = None
+        changed = True
+    topB = {ns["name"] for ns in B["nodes"] if ns["k"] == "fn" and len(ns.get("outs", [])) == 1 and not ns.get("gen") and not ns.get("beh")}
+    cand = [ns["name"] for ns in A["nodes"] if ns["k"] == "fn" and ns["name"] in topB and len(ns.get("outs", [])) == 1 and not ns.get("gen") and not ns.get("beh")]
+    if cand and rng.random() < 0.7:
+        nm = rng.choice(cand)
+        for X in (A, B):
+            for ns in X["nodes"]:
+                if ns["k"] == "fn" and ns["name"] == nm:
+                    ns["none_out"] = True
+        changed = True
+    return (A, B) if changed else None
+
+
+def compare_pair(ctx, A, B, info, depth_label, _variant=False):
+    if not _variant and ctx.rng.random() < 0.3:
+        nv = _none_variants(ctx, A, B)
+        if nv is not None:
+            ctx.obs["none_variants"] += 1
+            compare_pair(ctx, nv[0], nv[1], info, depth_label + "/none-variant", _variant=True)
     case = {"flat": A, "nested": B, "info": info}
     warm = ctx.rng.random() < 0.3
     try:
@@ -109,6 +137,11 @@ def compare_pair(ctx, A, B, info, depth_label):
     for o in optR:
         if ctx.rng.random() < 0.4:
             provided[o] = f"run:{o}"
+    # values that are None or falsy are values: a quarter of the executions address one to some input
+    if provided and ctx.rng.random() < 0.25:
+        k_ = ctx.rng.choice(sorted(provided))
+        provided[k_] = ctx.rng.choice([None, None, 0, "", (), False])
+        ctx.obs["none_or_falsy_provided"] += 1
     hid = hidden_names(B)
     try:
         RA = ref.ref_eval(A, provided)
